@@ -13,6 +13,10 @@ Bounded models (configurations of Flow.tla):
   Flow_c01_nul         callables returning None
   Flow_c01_vals        flows of None, False, "", {}, [], (), 0, bare and in pairs
   Flow_c01_rerun*      the same pipeline object run again after a complete, an abandoned or a failed run
+  Flow_c01_obj*        how an argument is given: elements whose class is also a named tuple / list / dict /
+                       equal to everything (Hosted), static context elements of every kind also BEFORE the
+                       generator of a Source (lead; also in Flow_c01_ext*), Split with copy_buf=False
+  Flow_c01_lead_thorough   deeper argument lists that start with static context elements
 """
 import random
 import threading
@@ -29,25 +33,34 @@ class InputError(Exception):
 
 
 def kinds_of(prog):
-    return "+".join(st["t"] if st["t"] != "bad" else "bad:" + st["k"] for st in prog)
+    return "+".join(fl.kind_name(st) for st in prog)
 
 
-def build(prog, pairs, shape, mode, first=None, nsplit=0, share=False):
+def build(prog, pairs, shape, mode, first=None, nsplit=0, share=False, lead=0):
     """Fresh elements in the given bracketing.  mode: "seq" | "source" | "nsource" (a Source whose first
-    element is a Source holding the first nsplit elements).  share: equal descriptors become ONE object."""
+    element is a Source holding the first nsplit elements).  share: equal descriptors become ONE object.
+    lead (spec/Flow.tla): the first lead elements (they have no data) stand BEFORE the generator of the Source;
+    shape and nsplit then refer to the elements after them.  mode "nsource-outer": the leading elements
+    stand in the outer Source, before the inner one."""
     import lena.core
     els = []
     for i, st in enumerate(prog):
         j = next((j for j in range(i) if share and prog[j] == st and fl.reusable(st)), None)
         els.append(els[j] if j is not None else fl.build_stage(st, pairs))
+    head, els = els[:lead], els[lead:]
     if mode == "nsource":
         with fl.quiet_warnings():
-            inner = lena.core.Source(first, *els[:nsplit])
+            inner = lena.core.Source(*(head + [first] + els[:nsplit]))
             return lena.core.Source(inner, *els[nsplit:])
+    if mode == "nsource-outer":
+        with fl.quiet_warnings():
+            inner = lena.core.Source(first, *els[:nsplit])
+            return lena.core.Source(*(head + [inner] + els[nsplit:]))
     args = fl.nest(els, shape)
     if mode == "source":
         with fl.quiet_warnings():
-            return lena.core.Source(first, *args)
+            return lena.core.Source(*(head + [first] + args))
+    assert not lead
     return lena.core.Sequence(*args)
 
 
@@ -65,13 +78,14 @@ def source_first(flow, kind):
     return fl.hand_over(flow, kind)        # a re-iterable container is the first element itself
 
 
-def run_real(prog, flow, pairs, shape, mode="seq", kind="iter", calls=1, nsplit=0, share=False, partial=False):
+def run_real(prog, flow, pairs, shape, mode="seq", kind="iter", calls=1, nsplit=0, share=False, partial=False,
+             lead=0):
     """Build and run.  Returns (built, out).  calls > 1: the same object is run repeatedly on the same
     flow (a container-based Source generates the same flow each time); all outputs must be equal."""
     import lena.core
     try:
         first = source_first(flow, kind) if mode != "seq" else None
-        seq = build(prog, pairs, shape, mode, first, nsplit, share)
+        seq = build(prog, pairs, shape, mode, first, nsplit, share, lead)
     except lena.core.LenaTypeError:
         return "LenaTypeError", None
     except Exception as exc:    # noqa
@@ -196,11 +210,37 @@ def variants(rec, salt, full, lite=False):
     return V
 
 
+def variants_lead(rec, salt, full):
+    """Scenarios of spec/Flow.tla with lead > 0: Source(e1..e_lead, generator, e_lead+1..en).  Only a Source has
+    a generator among its arguments; the elements after it in rotating bracketings, the generator of several
+    kinds, the Source nested in a Source (with the leading elements inside or outside)."""
+    prog, lead = rec["prog"], rec["lead"]
+    m = len(prog) - lead
+    flat = list(range(m))
+    rot = rec["n"] * 2 + (1 if rec["pairs"] else 0) + salt
+    srckinds = ["list", "tuple", "gen", "iterable", "deque", "cls"]
+    V = [(flat, "source", "iter", 1, 0, False)]
+    for j in range(len(srckinds) if full else 1):
+        V.append((flat, "source", srckinds[(rot + j) % len(srckinds)], 1, 0, False))
+    others = fl.shapes(m)[1:]
+    for j in range(len(others) if full else min(2, len(others))):
+        V.append((others[(rot * 2 + j) % len(others)], "source", "iter", 1, 0, False))
+    for k in (range(m + 1) if full else [rot % (m + 1)]):
+        V.append((flat, "nsource", ["iter", "list"][(rot + k) % 2], 1, k, False))
+        V.append((flat, "nsource-outer", ["list", "iter"][(rot + k) % 2], 1, k, False))
+    if stateless(prog):
+        V.append((flat, "source", ["list", "iter"][rot % 2], 2, 0, False))
+    return [v + (0,) for v in V]
+
+
 def replay(ctx, rec, full=True, lite=False):
     prog, n, pairs = rec["prog"], rec["n"], rec["pairs"]
+    lead = rec.get("lead", 0)
     exp_out = [fl.norm_spec_val(v) for v in rec["out"]]
     ok = True
-    if rec["built"] != "ok":
+    if lead:
+        V = variants_lead(rec, ctx.seed, full)
+    elif rec["built"] != "ok":
         # nothing is run: every bracketing must be rejected at construction
         V = [(sh, mode, "iter", 1, 0, False, 0) for sh in fl.shapes(len(prog)) for mode in ("seq", "source")
              if not sole_tuple(prog, sh)]
@@ -210,7 +250,8 @@ def replay(ctx, rec, full=True, lite=False):
         fl.BRANCH_NEST[0] = brnest
         # a fresh flow every time: elements may write into the contexts they are given (Count)
         flow = fl.make_flow(n, pairs, rec.get("base", 0), rec.get("vals", "nat"))
-        built, out = run_real(prog, flow, pairs, shape, mode, kind, calls, nsplit, share, partial=rec.get("failed", False))
+        built, out = run_real(prog, flow, pairs, shape, mode, kind, calls, nsplit, share, partial=rec.get("failed", False),
+                              lead=lead)
         ctx.evaluations += 1
         if built == "ok" and rec.get("failed"):
             # a callable raises for one value: the values before it (what the lazy machine has delivered, or a
@@ -224,17 +265,21 @@ def replay(ctx, rec, full=True, lite=False):
             continue
         if built != rec["built"]:
             ok = False
-            ctx.violation("build:%s:expected=%s:got=%s" % (kinds_of(prog), rec["built"], built),
-                          {"prog": prog, "shape": shape, "mode": mode})
+            ctx.violation("build:%s%s:expected=%s:got=%s" % (kinds_of(prog), ":generator-after-%d" % lead if lead else "",
+                                                             rec["built"], built),
+                          {"prog": prog, "shape": shape, "mode": mode, "elements_before_generator": lead})
         elif built == "ok" and out != exp_out:
             ok = False
-            ctx.violation("run:%s%s%s%s%s%s" % (kinds_of(prog), {"seq": "", "source": ":source", "nsource": ":source-in-source"}[mode],
+            ctx.violation("run:%s%s%s%s%s%s%s" % (kinds_of(prog), {"seq": "", "source": ":source", "nsource": ":source-in-source",
+                                                                   "nsource-outer": ":source-in-source"}[mode],
+                                                  ":generator-after-%d" % lead if lead else "",
                                                 "" if kind == "iter" else ":flow=" + kind,
                                                 "" if calls == 1 else ":calls=%d" % calls,
                                                 ":shared-object" if share else "",
                                                 ":vals" if rec.get("vals") == "special" else ""),
                           {"prog": prog, "n": n, "pairs": pairs, "shape": shape, "mode": mode,
                            "flowkind": kind, "calls": calls, "first_in_inner_source": nsplit, "branch_grouping": brnest,
+                           "elements_before_generator": lead,
                            "expected": exp_out, "observed": out})
     fl.BRANCH_NEST[0] = 0
     return ok
@@ -360,9 +405,11 @@ def run(ctx):
     rerun_cfg = "Flow_c01_rerun_thorough.cfg" if ctx.thorough else "Flow_c01_rerun.cfg"
     machine = ("Ask", "StageNeed", "StageHave", "StageEof", "Source", "Deliver")
     w = max(2, ctx.nworkers // 2)
-    with ThreadPoolExecutor(max_workers=8) as pool:
+    obj_cfg = "Flow_c01_obj_thorough.cfg" if ctx.thorough else "Flow_c01_obj.cfg"
+    with ThreadPoolExecutor(max_workers=11) as pool:
         jobs = {
             "mc": pool.submit(ctx.mc, "Flow", "Flow_c01_%s.cfg" % tag, coverage=True, must_cover=machine),
+            "obj": pool.submit(ctx.mc, "Flow", obj_cfg, workers=1, coverage=True, must_cover=machine),
             "export": pool.submit(ctx.export, "Flow", "Flow_c01_%s_export.cfg" % tag, min_records=500),
             "mc_ext": pool.submit(ctx.mc, "Flow", ext + ".cfg", workers=w),
             "ext": pool.submit(ctx.export, "Flow", ext + "_export.cfg", min_records=500),
@@ -374,12 +421,16 @@ def run(ctx):
             "fail": pool.submit(ctx.mc, "Flow", "Flow_c01_fail.cfg", workers=1, coverage=True,
                                 must_cover=machine + ("Fail",)),
         }
+        if ctx.thorough:
+            jobs["lead"] = pool.submit(ctx.mc, "Flow", "Flow_c01_lead_thorough.cfg", workers=1, coverage=True,
+                                       must_cover=machine)
         res = {k: j.result() for k, j in jobs.items()}
 
     def note(rec):
         ctx.traces += 1
         if rec["prog"] and rec["n"]:
-            ctx.distinct.add(core.canon([rec["prog"], rec["n"], rec["pairs"], rec.get("vals"), rec.get("base")]))
+            ctx.distinct.add(core.canon([rec["prog"], rec["n"], rec["pairs"], rec.get("vals"), rec.get("base"),
+                                         rec.get("lead", 0)]))
     cpu = {"tlc_wall": round(time.time() - ctx.t0, 1)}
     t_cpu = [time.process_time()]
 
@@ -399,6 +450,20 @@ def run(ctx):
         note(rec)
     ctx.sample({"spec_behaviour_extended_vocabulary": res["ext"][len(res["ext"]) // 2]})
     lap("ext")
+    # the way an argument is given: hosted elements, static context before the generator, copy_buf=False
+    objr = res["obj"].records + (res["lead"].records if ctx.thorough else [])
+    nlead = sum(1 for r in objr + res["ext"] if r.get("lead"))
+    nhost = sum(1 for r in objr if any(st["t"] == "hosted" for st in r["prog"]))
+    if len(objr) < 500 or not nhost or not nlead:
+        raise core.MachineryError("Flow_c01_obj produced %d records (%d hosted, %d with lead)" % (len(objr), nhost, nlead))
+    for rec in objr:
+        replay(ctx, rec, full=ctx.thorough and (rec["n"] + ctx.seed) % 2 == 0, lite=True)
+        note(rec)
+    ctx.extra["hosted_element_scenarios"] = nhost
+    ctx.extra["generator_after_static_context_scenarios"] = nlead
+    ctx.sample({"spec_behaviour_generator_after_static_context":
+                next(r for r in objr if r.get("lead") and r["out"] and len(r["prog"]) > r["lead"])})
+    lap("obj")
     # callables whose result is None: one output per input, None is a value like any other
     for rec in res["nul"]:
         replay(ctx, rec, full=False, lite=True)
@@ -450,7 +515,7 @@ def run(ctx):
     # ---- code -> spec: larger random programs in random bracketings, validated by Trace_Flow
     rnd = random.Random(ctx.seed)
     alphabet = ["map", "map", "filter", "slice", "lagk", "lastk", "count", "runif", "reverse", "end",
-                "sum", "last", "split", "nslice", "nodata", "splitx", "print"]
+                "sum", "last", "split", "nslice", "nodata", "splitx", "print", "hosted"]
     trace = []
     ntr = 1500 if ctx.thorough else 300
     attempts = 0
@@ -458,17 +523,23 @@ def run(ctx):
         attempts += 1
         prog = [fl.random_stage(rnd, alphabet) for _ in range(rnd.randint(0, 6))]
         n, pairs = rnd.randint(0, 12), rnd.random() < 0.6
-        shape = random_shape(rnd, list(range(len(prog))))
         mode = "source" if rnd.random() < 0.3 else "seq"
+        lead = 0
+        if mode == "source" and rnd.random() < 0.5:
+            # static context elements before the generator of the Source
+            lead = rnd.randint(1, 2)
+            prog = [rnd.choice([{"t": "nodata"}, {"t": "nodata", "k": "store"}, {"t": "nodata", "k": "set2"}])
+                    for _ in range(lead)] + prog[:5]
+        shape = random_shape(rnd, list(range(len(prog) - lead)))
         kind = rnd.choice(["iter", "iter", "list", "tuple", "gen", "iterable", "deque"])
         fl.BRANCH_NEST[0] = rnd.randint(0, 3)
-        built, out = run_real(prog, fl.make_flow(n, pairs), pairs, shape, mode, kind)
+        built, out = run_real(prog, fl.make_flow(n, pairs), pairs, shape, mode, kind, lead=lead)
         fl.BRANCH_NEST[0] = 0
         if built != "ok" or not isinstance(out, list):
             ctx.violation("random-run:%s" % (out if built == "ok" else built), {"prog": prog, "n": n, "shape": shape})
             continue
         trace.append({"prog": prog, "n": n, "pairs": pairs, "out": out, "pulls": [], "lazy": False, "alive": -1,
-                      "shape": repr(shape)})
+                      "shape": repr(shape), "lead": lead})
     lap("random")
     if not trace:
         return ctx.finish(rule="no random program could be run on the real code (reported as violations)")
